@@ -178,11 +178,8 @@ func (c *TCPConn) Read(b []byte) (int, error) {
 		err := opErr("read", "tcp", c.remote, ErrClosed)
 		W.log(c.id, "read", 0, nil, err)
 		return 0, err
-	case c.in.rst:
-		err := opErr("read", "tcp", c.remote, os.NewSyscallError("read", syscall.ECONNRESET))
-		W.log(c.id, "read", 0, nil, err)
-		return 0, err
 	case c.in.size > 0:
+		// queued data is delivered before a reset or an end of stream is reported
 		if len(b) == 0 {
 			return 0, nil
 		}
@@ -211,6 +208,10 @@ func (c *TCPConn) Read(b []byte) (int, error) {
 		c.in.size -= n
 		W.log(c.id, "read", n, b[:n], nil)
 		return n, nil
+	case c.in.rst:
+		err := opErr("read", "tcp", c.remote, os.NewSyscallError("read", syscall.ECONNRESET))
+		W.log(c.id, "read", 0, nil, err)
+		return 0, err
 	case c.in.fin:
 		W.log(c.id, "eof", 0, nil, nil)
 		return 0, io.EOF
@@ -241,7 +242,6 @@ func (c *TCPConn) Write(b []byte) (int, error) {
 	case c.peer.closed:
 		// accepted by the local kernel, answered by RST: data lost
 		c.lostOne = true
-		c.in.rst = true
 		W.log(c.id, "write-lost", len(b), b, nil)
 		return len(b), nil
 	case c.window > 0 && c.out.size >= c.window:
@@ -263,7 +263,11 @@ func (c *TCPConn) Close() error {
 		return opErr("close", "tcp", c.remote, ErrClosed)
 	}
 	c.closed = true
-	c.out.fin = true
+	if c.in.size > 0 {
+		c.out.rst = true // unread data: the kernel answers with RST instead of FIN
+	} else {
+		c.out.fin = true
+	}
 	W.log(c.id, "close", c.in.size, nil, nil)
 	return nil
 }
